@@ -213,6 +213,12 @@ def havoc_outer(I: Interp, fr: Frame) -> None:
     I.ghost["le_has_cause"] = cause == 1
     fr.env["last_exception"] = le
     for n in ("raw_resp", "resp", "n_pending", "n_timeout", "wait_time", "e"):
+        if n in ("n_pending", "n_timeout") and n in fr.env and \
+                n in I.ghost.get("__loop_assigned", set()):
+            # bound before the loop and changed inside it: the value is carried from one
+            # attempt to the next (any value an earlier attempt may have left)
+            fr.env[n] = I.fresh_int(n + "_carried")
+            continue
         fr.env.pop(n, None)
         fr.poison.add(n)
 
@@ -568,7 +574,11 @@ def actual(log: dict) -> tuple[str, int]:
 
 SPECIAL_SCRIPTS = [["pending"] * 130, ["pending"] + ["timeout"] * 45, ["pending"] * 5 + ["positive"],
                    ["pending", "timeout", "positive"], ["pending"] + ["timeout"] * 39 + ["positive"],
-                   ["timeout", "pending"] + ["timeout"] * 41 + ["positive"]]
+                   ["timeout", "pending"] + ["timeout"] * 41 + ["positive"],
+                   # a second attempt after a first one that ended in pending + silence: its
+                   # pending / silence budgets start afresh
+                   ["pending"] + ["timeout"] * 40 + ["pending", "timeout", "positive"],
+                   ["pending"] * 70 + ["timeout"] * 40 + ["pending"] * 70 + ["positive"]]
 
 
 def native_replay(unit: str, obligation: str, model: dict) -> tuple[bool, str]:
